@@ -1,6 +1,7 @@
 import Pi2.MM.TranslateThm
 import Pi2.Props.C15
 import Pi2.XProofTie
+import Pi2.MM.ConvCompose
 /-!
 # C16 — valid Metamath proofs translate to checkable proofs of the same statement
 
@@ -22,6 +23,20 @@ configuration (`--optimize` or not).  Compressed-proof decoding is C15.
   closures, branch order, stack indices, `save`/`pop`/`instantiate` sequences, `memory_offset`, the `Z` mark) is the model
   `xstep` / `execProof` the theorems above are stated about — for the converter of a well-formed database
   (`XProofTie.ofDB`) and fuel `≥ 5` (both needed: `XProofTie.wf_needed`, `XProofTie.fuel_needed`); `Pi2/XProofTie.lean`.
+* `converter_translated`, `converter_text_state`, `converter_text_is_the_model`: `MetamathConverter` as written in
+  `metamath/converter/converter.py` + `scope.py` + `representation.py` (`Pi2/Gen/MMConv.lean`, regenerated from the source on every
+  run by `vlib/transconv.py`: `__init__`, `_top_down` with `sort_axiom`, the five `get_*` tests of `_import_floating`, the ten
+  predicates of `_check_axiom` in the order they are tried, `_import_axiom` / `_import_lemma` with blocks, `_to_pattern`,
+  `_convert_antecedents`, the query methods) on every database of the fragment `ConvTie.InFragment` (decidable; evaluated by the
+  driver on every generated database) returns, and answers every query of `exec_proof` about every `$f` and `$a` label exactly as
+  `XProofTie.ofDB` of the SPECIFICATION `MM.ConvSpec.dbOfMDb` (`Pi2/MM/ConvSpec.lean`: the model database, label table, numbering
+  and target read off the Metamath meaning of the statements) answers it for the label's `Lbl`; `exported_axioms` are the `|-`
+  axioms that are not proof rules, in database order; the target's pattern is the image of the goal and its decoded proof is the
+  specification's label list and steps.  (`Pi2/MM/ConvTie.lean`, `Pi2/MM/ConvBridge.lean`.)
+* `translation_text_is_the_model`: the composition — the generated converter (packaged as the `Conv` of the generated `exec_proof`:
+  `ConvTie.convOf`, labels by their names in the label table) + the generated `exec_proof` on a database of the fragment
+  (`ConvTie.InFragmentX`) = the model's `execProof` on `dbOfMDb`, the model the theorems at the top of this file are about
+  (`Pi2/MM/ConvCompose.lean`, through `XProofCongr.exec_proof_congr` and `XProofTie.exec_proof_tie`).
 * NOT covered by a theorem: the byte limits of the wire format (a proof that needs more than 256
   memory slots cannot be serialised: recorded finding KF-C16-slots) and declared notation sugar
   (`#Notation` axioms), which are outside F0.
@@ -88,5 +103,52 @@ theorem exec_proof_text_is_the_model (cfg : Cfg) (n : Nat) (db : DB) (goal : MM.
     XProofTie.outcome (Gen.XProof.exec_proof (XProofTie.ofDB db goal) cfg n labels steps s acc) =
       execProof cfg n db goal labels steps s acc :=
   XProofTie.exec_proof_tie db goal cfg n labels steps s acc (DB.wf_WF db hwf) hn
+
+/-- every statement of the converter paths the fragment exercises is covered by the translator (`vlib/transconv.py`) -/
+theorem converter_translated : Gen.MMConv.translated = true := ConvTie.translated
+
+/-- on a database that satisfies the decidable conditions `InFragmentM` the converter as written returns — no exception, no path
+outside the modelled fragment, enough fuel — and its final state is `ConvTie.Final`: pattern constructors, proof rules, `_axioms` in
+database order with the structural images, `$f` order, the target lemma with its decoded proof -/
+theorem converter_text_state (σ : String → Nat) (mdb : MDb) (fuel0 : Nat) (target : String)
+    (h : ConvTie.InFragmentM mdb fuel0 target = true) :
+    ∃ t prf pf, ConvTie.lemmaOf mdb = some (target, t, prf) ∧
+      ConvSup.callImportProof ((ConvTie.floatPairs mdb).map (·.2)) (.prov target [.app "|-" [], t] prf) = .ok pf ∧
+      ∀ fuel, fuel0 ≤ fuel → ∃ c, Gen.MMConv.MetamathConverter_init σ fuel default mdb = .ok c ∧ ConvTie.Final σ mdb target t pf c :=
+  ConvTie.converter_state σ mdb fuel0 target h
+
+/-- the converter as written is the model: on every database of the fragment it answers the queries of `exec_proof`
+(`pattern_constructors`, `_fp_label_to_pattern`, `exported_axioms`, `proof_rules`, `get_axiom_by_name`, `get_metavars_in_order`,
+`resolve_metavar`, `get_lemma_by_name`) as `XProofTie.ofDB (dbOfMDb mdb)` does -/
+theorem converter_text_is_the_model (mdb : MDb) (target : String) (h : ConvTie.InFragment mdb target = true) :
+    ∃ sp, MM.ConvSpec.dbOfMDb mdb target = some sp ∧ sp.db.wf = true ∧
+      ∀ fuel, ConvTie.dbFuel mdb ≤ fuel → ∃ c, Gen.MMConv.MetamathConverter_init sp.names.consts.idxOf fuel default mdb = .ok c ∧
+        (∀ l v, (l, v) ∈ ConvTie.floatPairs mdb →
+          sp.table.lookup l = some (Lbl.float (sp.names.vars.idxOf v)) ∧
+          c._fp_label_to_pattern.lookup l = (XProofTie.ofDB sp.db sp.goal).floating (Lbl.float (sp.names.vars.idxOf v)) ∧
+          Gen.MMConv.resolve_metavar sp.names.consts.idxOf fuel c v =
+            .ok ((XProofTie.ofDB sp.db sp.goal).resolveMetavar (sp.names.vars.idxOf v)) ∧
+          Gen.MMConv.is_pattern_constructor sp.names.consts.idxOf fuel c l =
+            (XProofTie.ofDB sp.db sp.goal).isPatternConstructor (Lbl.float (sp.names.vars.idxOf v))) ∧
+        (∀ st ∈ mdb.filter ConvTie.isAxItem, ∃ l lbl, ConvTie.axLabel st = l ∧ sp.table.lookup l = some lbl ∧
+          ConvTie.AgreeAxiom sp.names.consts.idxOf fuel c sp.names sp.db sp.goal l lbl) ∧
+        (Gen.MMConv.exported_axioms sp.names.consts.idxOf fuel c =
+          ((mdb.filter ConvTie.isAxItem).filter fun st => !ConvTie.isPcItem st && !ConvTie.isPrItem st).map ConvTie.axLabel) ∧
+        (∃ a pf, Gen.MMConv.get_lemma_by_name sp.names.consts.idxOf fuel c target = .ok a ∧
+          a.pattern = (XProofTie.ofDB sp.db sp.goal).targetPattern ∧ a.proof? = some pf ∧ ConvTie.proofAgrees sp pf = true ∧
+          Gen.MMConv.lemmas sp.names.consts.idxOf fuel c = [target]) :=
+  ConvTie.converter_agrees mdb target h
+
+/-- the translation as written is the model: converter text + `exec_proof` text on a database of the fragment = `execProof` on the
+specification's database, label list and steps (fuel `≥ dbFuel` for the converter, `≥ 5` for `exec_proof`) -/
+theorem translation_text_is_the_model (mdb : MDb) (target : String) (h : ConvTie.InFragmentX mdb target = true) :
+    ∃ sp, MM.ConvSpec.dbOfMDb mdb target = some sp ∧
+      ∀ fuel, ConvTie.dbFuel mdb ≤ fuel → ∃ c, Gen.MMConv.MetamathConverter_init sp.names.consts.idxOf fuel default mdb = .ok c ∧
+        (∃ a pf, Gen.MMConv.get_lemma_by_name sp.names.consts.idxOf fuel c target = .ok a ∧ a.proof? = some pf ∧
+          ConvTie.proofAgrees sp pf = true) ∧
+        ∀ (cfg : Cfg) (n : Nat) (s : PySt) (acc : List Call), 5 ≤ n →
+          XProofTie.outcome (Gen.XProof.exec_proof (ConvTie.convOf sp.names.consts.idxOf fuel c sp target) cfg n sp.labels sp.steps s acc) =
+            execProof cfg n sp.db sp.goal sp.labels sp.steps s acc :=
+  ConvTie.translation_tie mdb target h
 
 end C16
